@@ -21,6 +21,7 @@
 #include "algorithms/sequential/tbfalgorithm.hpp"
 #include "algorithms/sequential/tbfalgorithmtsm.hpp"
 #include "algorithms/periodic/tbfalgorithmperiodictoptree.hpp"
+#include "algorithms/periodic/tbfalgorithmperiodictoptreetsm.hpp"
 #include "utils/tbfperiodicshifter.hpp"
 
 extern "C" {
@@ -204,6 +205,55 @@ template <class PR> static inline void addRhs(PR& rhs, long i, U v){
     for(int r = 0; r < NRHS; ++r) rhs[r][i] += U(r + 1) * v;
 }
 
+// ---- virtual levels of the periodic top tree (shared by the single-tree and the target/source harness kernels)
+template <class CC, class C>
+static void virtualM2M(const Registry& reg, const long level, const CC& low, C& up, const long pos[], const long n){
+    const long top = gTop.k + 3;
+    irsym_assert(3 <= level && level <= top && level < 24 && gTop.vM[level] == nullptr, V_M2M_LEVEL);
+    gTop.vM[level] = &up; gTop.nM2M += 1;
+    bool ok = n >= 1 && n <= (1L << DIM);
+    if(level == top){
+        for(long i = 0; i < n && ok; ++i){ const CellRec* c = reg.byM(&low[i].get()); ok = ok && c != nullptr && c->level == 1 && pos[i] == (c->idx & ((1L << DIM) - 1));
+            for(long j = 0; j < i; ++j) ok = ok && &low[j].get() != &low[i].get(); }
+    }
+    else{
+        ok = ok && n == (1L << DIM);
+        for(long i = 0; i < n && ok; ++i){ ok = ok && static_cast<const void*>(&low[i].get()) == gTop.vM[level + 1] && pos[i] == i; }
+    }
+    irsym_assert(ok, V_M2M_CHILDREN);
+}
+template <class CC, class C>
+static void virtualM2L(const long level, const CC& src, const long pos[], const long n, C& tgt){
+    const long top = gTop.k + 3;
+    irsym_assert(3 <= level && level <= top && level < 24 && gTop.vL[level] == nullptr, V_M2L_LEVEL);
+    gTop.vL[level] = &tgt; gTop.nM2L += 1;
+    bool srcok = true, win = true;
+    const long lo = gTop.k == 0 ? -3 : (level == 3 ? -3 : -2), hi = gTop.k == 0 ? 3 : (level == 3 ? 2 : 3);
+    long expectN = 1, near = 1; for(int d = 0; d < DIM; ++d){ expectN *= (hi - lo + 1); near *= 3; }
+    win = n == expectN - near;
+    for(long i = 0; i < n; ++i){
+        srcok = srcok && static_cast<const void*>(&src[i].get()) == gTop.vM[level];
+        const auto rel = Idx::getRelativePosFromInteractionIndex(pos[i]);
+        long maxd = 0; for(int d = 0; d < DIM; ++d){ win = win && lo <= rel[d] && rel[d] <= hi; const long a = rel[d] < 0 ? -rel[d] : rel[d]; if(a > maxd) maxd = a; }
+        win = win && maxd >= 2;
+        for(long j = 0; j < i; ++j) win = win && pos[j] != pos[i];
+    }
+    irsym_assert(srcok, V_M2L_SRC); irsym_assert(win, V_M2L_WINDOW);
+}
+template <class C, class CC>
+static void virtualL2L(const Registry& reg, const long level, const C& up, CC& low, const long pos[], const long n){
+    const long top = gTop.k + 3;
+    irsym_assert(3 <= level && level <= top && level < 24 && static_cast<const void*>(&up) == gTop.vL[level], V_L2L_PARENT);
+    gTop.nL2L += 1;
+    bool ok = n >= 1;
+    if(level == top){
+        for(long i = 0; i < n && ok; ++i){ const CellRec* c = reg.byL(&low[i].get()); ok = ok && c != nullptr && c->level == 1 && pos[i] == (c->idx & ((1L << DIM) - 1));
+            for(long j = 0; j < i; ++j) ok = ok && &low[j].get() != &low[i].get(); }
+    }
+    else ok = ok && n == 1 && static_cast<const void*>(&low[0].get()) == gTop.vL[level + 1] && pos[0] == 0;
+    irsym_assert(ok, V_L2L_CHILDREN);
+}
+
 template <class RealType_T, class SpaceIndexType_T>
 class VKernel {
 public:
@@ -248,22 +298,7 @@ public:
 
     template <class Sym, class CC, class C>
     void M2M(const Sym& hdr, const long level, const CC& low, C& up, const long pos[], const long n) const {
-        if(gK.geom && gK.periodic && gReg.byM(&up) == nullptr){
-            // virtual level: level k+3 gathers the level-1 cells of the real tree, the levels above gather 2^Dim copies of the level below
-            const long top = gTop.k + 3;
-            irsym_assert(3 <= level && level <= top && level < 24 && gTop.vM[level] == nullptr, V_M2M_LEVEL);
-            gTop.vM[level] = &up; gTop.nM2M += 1;
-            bool ok = n >= 1 && n <= (1L << DIM);
-            if(level == top){
-                for(long i = 0; i < n && ok; ++i){ const CellRec* c = gReg.byM(&low[i].get()); ok = ok && c != nullptr && c->level == 1 && pos[i] == (c->idx & ((1L << DIM) - 1));
-                    for(long j = 0; j < i; ++j) ok = ok && &low[j].get() != &low[i].get(); }
-            }
-            else{
-                ok = ok && n == (1L << DIM);
-                for(long i = 0; i < n && ok; ++i){ ok = ok && static_cast<const void*>(&low[i].get()) == gTop.vM[level + 1] && pos[i] == i; }
-            }
-            irsym_assert(ok, V_M2M_CHILDREN);
-        }
+        if(gK.geom && gK.periodic && gReg.byM(&up) == nullptr) virtualM2M(gReg, level, low, up, pos, n);
         else if(gK.geom){
             const CellRec* p = gReg.byM(&up);
             irsym_assert(n >= 1 && n <= (1L << DIM), G_M2M_N);
@@ -285,23 +320,7 @@ public:
 
     template <class Sym, class CC, class C>
     void M2L(const Sym& hdr, const long level, const CC& src, const long pos[], const long n, C& tgt) const {
-        if(gK.geom && gK.periodic && gReg.byL(&tgt) == nullptr){
-            const long top = gTop.k + 3;
-            irsym_assert(3 <= level && level <= top && level < 24 && gTop.vL[level] == nullptr, V_M2L_LEVEL);
-            gTop.vL[level] = &tgt; gTop.nM2L += 1;
-            bool srcok = true, win = true;
-            const long lo = gTop.k == 0 ? -3 : (level == 3 ? -3 : -2), hi = gTop.k == 0 ? 3 : (level == 3 ? 2 : 3);
-            long expectN = 1, near = 1; for(int d = 0; d < DIM; ++d){ expectN *= (hi - lo + 1); near *= 3; }
-            win = n == expectN - near;
-            for(long i = 0; i < n; ++i){
-                srcok = srcok && static_cast<const void*>(&src[i].get()) == gTop.vM[level];
-                const auto rel = Idx::getRelativePosFromInteractionIndex(pos[i]);
-                long maxd = 0; for(int d = 0; d < DIM; ++d){ win = win && lo <= rel[d] && rel[d] <= hi; const long a = rel[d] < 0 ? -rel[d] : rel[d]; if(a > maxd) maxd = a; }
-                win = win && maxd >= 2;
-                for(long j = 0; j < i; ++j) win = win && pos[j] != pos[i];
-            }
-            irsym_assert(srcok, V_M2L_SRC); irsym_assert(win, V_M2L_WINDOW);
-        }
+        if(gK.geom && gK.periodic && gReg.byL(&tgt) == nullptr) virtualM2L(level, src, pos, n, tgt);
         else if(gK.geom){
             const CellRec* t = gReg.byL(&tgt);
             irsym_assert(n >= 1, G_M2L_N);
@@ -338,18 +357,7 @@ public:
 
     template <class Sym, class C, class CC>
     void L2L(const Sym& hdr, const long level, const C& up, CC& low, const long pos[], const long n) const {
-        if(gK.geom && gK.periodic && gReg.byL(&up) == nullptr){
-            const long top = gTop.k + 3;
-            irsym_assert(3 <= level && level <= top && level < 24 && static_cast<const void*>(&up) == gTop.vL[level], V_L2L_PARENT);
-            gTop.nL2L += 1;
-            bool ok = n >= 1;
-            if(level == top){
-                for(long i = 0; i < n && ok; ++i){ const CellRec* c = gReg.byL(&low[i].get()); ok = ok && c != nullptr && c->level == 1 && pos[i] == (c->idx & ((1L << DIM) - 1));
-                    for(long j = 0; j < i; ++j) ok = ok && &low[j].get() != &low[i].get(); }
-            }
-            else ok = ok && n == 1 && static_cast<const void*>(&low[0].get()) == gTop.vL[level + 1] && pos[0] == 0;
-            irsym_assert(ok, V_L2L_CHILDREN);
-        }
+        if(gK.geom && gK.periodic && gReg.byL(&up) == nullptr) virtualL2L(gReg, level, up, low, pos, n);
         else if(gK.geom){
             const CellRec* p = gReg.byL(&up);
             irsym_assert(n >= 1 && n <= (1L << DIM), G_L2L_N);
